@@ -170,6 +170,9 @@ func genMsg(r *Rng, c *SrvConf, h *host, xid uint32) (MsgSpec, string) {
 }
 
 // genMsgKind: as genMsg, with the kind of message fixed when forced != "".
+// forcedVictim: when set, forged identifiers name this host (directed motif).
+var forcedVictim *host
+
 // otherHosts: the hosts of the running script (so that forged identifiers can name a host that holds a dynamic lease).
 var otherHosts []*host
 
@@ -226,7 +229,9 @@ func genMsgKind(r *Rng, c *SrvConf, h *host, xid uint32, forced string) (MsgSpec
 		m.Type = Pick(r, uint8(1), 3)
 		victim := c.SelfMAC
 		var vip net.IP
-		if len(c.Clients) > 0 && r.Bool() {
+		if forcedVictim != nil && forcedVictim != h {
+			victim, vip = forcedVictim.mac, forcedVictim.lastOff
+		} else if len(c.Clients) > 0 && r.Bool() {
 			cl := c.Clients[r.Intn(len(c.Clients))]
 			victim, vip = cl.MAC, cl.IP
 		} else if len(otherHosts) > 1 && r.Chance(60) { // another host of this script, possibly holding a dynamic lease right now
@@ -319,6 +324,7 @@ func srvScript(t *testing.T, r *Rng, s *Stream, c *SrvConf, replaySteps []script
 	synctest.Wait()
 	hosts := genHosts(r, c)
 	otherHosts = hosts
+	forcedVictim = nil
 	mon := NewSrvMonitor(c, s, cfgLine)
 	mon.respTable = env.Resp
 	// ARP responders: foreign hosts sitting on some pool addresses
@@ -348,7 +354,20 @@ func srvScript(t *testing.T, r *Rng, s *Stream, c *SrvConf, replaySteps []script
 	if len(hosts) >= 2 && r.Chance(20) {
 		a, b := 0, 1
 		near := offerHold - 2*time.Second
-		switch r.Intn(8) {
+		switch r.Intn(9) {
+		case 8: // a host known by its hardware address holds a lease; another host then claims identities derived from that address
+			for i, hh := range hosts {
+				if len(hh.cid) < 4 && hh.staticIP == nil && i != b {
+					a = i
+					break
+				}
+			}
+			if a == b {
+				b = (a + 1) % len(hosts)
+			}
+			forcedVictim = hosts[a]
+			plan = []planStep{{0, a, "discover"}, {time.Second, a, "selecting"}, {2 * time.Second, b, "forged-cid"}, {time.Second, b, "forged-cid"}, {time.Second, b, "forged-cid"},
+				{time.Second, b, "forged-cid"}, {time.Second, a, "renewing"}}
 		case 7: // a foreign host starts answering ARP for the offered address after the OFFER: the REQUEST must be refused
 			plan = []planStep{{0, a, "discover"}, {time.Second, a, "+conflict"}, {0, a, "selecting"}, {time.Second, a, "discover"}, {time.Second, b, "discover"}}
 		case 5: // the REQUEST arrives just inside the hold time: looked up before, confirmed after the hold has run out (the ARP probe lies in between)
